@@ -393,11 +393,12 @@ def alphabet(kind, thorough):
         ops += [('upd', T1, None, None, None)] + [('upd', None, b, None, None) for b in (True, False)]
         ops += [('upd', None, None, b, None) for b in (True, False)] + [('upd', None, None, None, b) for b in (True, False)]
         ops += [('upd', T1, h, g, d) for h in (True, False) for g in (True, False) for d in (True, False)]
-    elif not thorough:
-        # quick tier: every None/True/False combination of hard, gumbel, disable_sampling without a temperature, and
-        # with a new temperature the bare update and the fully specified ones
+    elif kind == 'layer':
+        # every None/True/False combination of hard, gumbel, disable_sampling without a temperature, and with a new
+        # temperature the bare update and the fully specified ones (thorough: also back to the first temperature)
         ops += [('upd', None, h, g, d) for h in tf for g in tf for d in tf if (h, g, d) != (None, None, None)]
-        ops += [('upd', T1, None, None, None)] + [('upd', T1, h, g, d) for h in (True, False) for g in (True, False) for d in (True, False)]
+        for t in ts[1:]:
+            ops += [('upd', t, None, None, None)] + [('upd', t, h, g, d) for h in (True, False) for g in (True, False) for d in (True, False)]
     else:
         ops += [('upd', t, h, g, d) for t in ts for h in tf for g in tf for d in tf]
     ops += [('train',), ('eval',), ('fwd', 0), ('opt', A0[kind]), ('opt', A1[kind])]
@@ -432,12 +433,13 @@ def abs_key(r, fine=False):
 def bfs(ctx, pool, kind, roots, maxdepth):
     """breadth-first closure of the abstract state space; every (state, op) transition is executed"""
     ops = alphabet(kind, not ctx.quick)
+    fine = (not ctx.quick) and kind == 'layer'   # thorough: the per-layer closure also distinguishes temperature / coefficients
     results = []
     seen = {}
     frontier = []
     for root in roots:
         r = exec_case(dict(root, ops=[]))
-        k = abs_key(r, not ctx.quick)
+        k = abs_key(r, fine)
         if k not in seen:
             seen[k] = []
             frontier.append((root, []))
@@ -454,7 +456,7 @@ def bfs(ctx, pool, kind, roots, maxdepth):
         frontier = []
         for j, r in zip(jobs, rs):
             results.append(r)
-            k = abs_key(r, not ctx.quick)
+            k = abs_key(r, fine)
             if k is not None and k not in seen:
                 seen[k] = j['ops']
                 frontier.append(({kk: v for kk, v in j.items() if kk not in ('ops',)}, j['ops']))
@@ -709,8 +711,8 @@ def run(ctx):
             results += rs
             closure[kind] = {'abstract_states': nstates, 'transitions_executed': len(rs), 'closed': closed, 'depth': depth}
         ctx.extra['closure'] = closure
-        results += list(pool.map(exec_case, specs_random(ctx, 100 if ctx.quick else 1500), chunksize=8))
-        mres = list(pool.map(exec_model, specs_models(ctx, 32 if ctx.quick else 300), chunksize=2))
+        results += list(pool.map(exec_case, specs_random(ctx, 100 if ctx.quick else 800), chunksize=8))
+        mres = list(pool.map(exec_model, specs_models(ctx, 32 if ctx.quick else 160), chunksize=2))
     ctx.extra['t_impl_s'] = round(time.time() - ctx.t0, 1)
     ctx.exhaustive = all(c['closed'] for c in closure.values())
     ctx.extra['exhaustive_part'] = 'the closure of the abstract sampler state space (b) when closed=true for every kind; vectors, temperatures and noise are sampled'
